@@ -273,6 +273,13 @@ def _plant(tree, world):
             f.write(b"<html><head><title>CWD-DECOY-A title</title></head></html>")
         with open(os.path.join(cwd, "zd", "nested.txt"), "wb") as f:
             f.write(b"CWD-DECOY-A")
+        # programs at the relative paths of archive members that are recorded as executable
+        os.makedirs(os.path.join(cwd, "tools"), exist_ok=True)
+        for nm, body in (("tools/report.sh", b"#!/bin/sh\necho CWD-DECOY-A\n"), ("tools/gen.pyg", trees.PYG_SRC.replace('"pyg:"', '"CWD-DECOY-A:"').encode()),
+                         ("run.pyg", b"CWD-DECOY-A")):
+            with open(os.path.join(cwd, nm), "wb") as f:
+                f.write(body)
+            os.chmod(os.path.join(cwd, nm), 0o755)
     return cwd
 
 
@@ -450,6 +457,93 @@ def _rp(listname, p, s, layers, rq):
     return {"handlers": listname, "protocol": p, "request_latin1": rq.decode("latin-1"), "tls": reqs.TLS[p]}
 
 
+def forced_state_interleavings(ctx, res):
+    """Shared module-level state as another thread of the threading server sees it, forced on the real code: a benign
+    request A is pre-empted at the k-th executed line inside the functions that write module-level names (`global`
+    declarations, found by reading the source), a climbing request H runs to completion there, A goes on, and H is
+    asked again (twice).  Every answer to H must be the not-found answer it gets alone, with nothing from outside."""
+    import sys
+    from props import c14
+    lazy = c14.lazy_functions()
+    tree = pyg.Tree()
+    try:
+        trees.standard(tree, hostile_content=False)
+        tree.outside("secret.txt", b"TOP-SECRET-A\n")
+        cfg = pyg.make_config(tree.root, **{"handlers.dir.DirHandler|cachetime": "0"})
+        # (requests claimed by the first, by a middle and by the last handler of the list: what stays behind in shared state
+        #  depends on which call was the request's last)
+        benign = [reqs.build("gopher", "/map"), reqs.build("http", "/docs"), reqs.build("gopher", "/README"), reqs.build("gopherp", "/docs/a.txt", gplus="!")]
+        hostile = [(reqs.build("gopher", "/../secret.txt"), False), (reqs.build("http", "/../secret.txt", layers=1), False),
+                   (reqs.build("gopherp", "/docs/../../secret.txt", gplus="+"), False), (reqs.build("gemini", "/../secret.txt", layers=1), True)]
+        if ctx.tier == "quick":
+            benign, hostile = benign[:2], [hostile[0], hostile[ctx.rng.randrange(1, 4)]]
+        for pa in benign:
+            for ph, htls in hostile:
+                pyg.reset_globals()
+                alone = pyg.request(ph, cfg, tls=htls, reset=False).out
+
+                def run_at(k):
+                    state = {"n": 0, "h": None, "fired": False, "where": []}
+
+                    def local(frame, event, arg):
+                        if event == "line":
+                            state["n"] += 1
+                            state["where"].append((frame.f_code.co_filename, frame.f_code.co_name, frame.f_lineno))
+                            if state["n"] == k and not state["fired"]:
+                                state["fired"] = True
+                                sys.settrace(None)
+                                try:
+                                    state["h"] = pyg.request(ph, cfg, tls=htls, reset=False)
+                                finally:
+                                    sys.settrace(tracer)
+                        return local
+
+                    def tracer(frame, event, arg):
+                        key = (os.path.realpath(frame.f_code.co_filename), frame.f_code.co_name)
+                        if event == "call" and key in lazy:
+                            return local
+                        return None
+                    pyg.reset_globals()
+                    sys.settrace(tracer)
+                    try:
+                        ra = pyg.request(pa, cfg, reset=False)
+                    finally:
+                        sys.settrace(None)
+                    later = [pyg.request(ph, cfg, tls=htls, reset=False) for _ in range(2)]
+                    return ra, state, later
+                _r, st0, _l = run_at(-1)
+                total = st0["n"]
+                res.count("state-preemption-points", total)
+                # every source line of these functions, at its first and at its last execution within the request (what is left
+                # behind in shared state is what the *last* writer left), plus seeded other positions
+                first, last = {}, {}
+                for i_, w_ in enumerate(st0["where"], 1):
+                    first.setdefault(w_, i_)
+                    last[w_] = i_
+                must = set(first.values()) | set(last.values())
+                rest = [k_ for k_ in range(1, total + 1) if k_ not in must]
+                cap = ctx.n(10, 400)
+                ks = sorted(must | set(ctx.rng.sample(rest, min(cap, len(rest)))))
+                for k in ks:
+                    ra, st_, later = run_at(k)
+                    res.evaluations += 4
+                    if not st_["fired"]:
+                        continue
+                    res.nontrivial.add(("state-interleaving", pa[:30], ph[:30], k))
+                    for who, r in [("H while A was inside", st_["h"])] + [("H afterwards", x) for x in later]:
+                        out = (r.out or b"") if r is not None else b""
+                        if r is None or b"SECRET" in out or out != alone:
+                            res.violation("C01:revealed:state-interleaving" if b"SECRET" in out else "C01:interference:state-interleaving",
+                                          "a climbing request served while another request was inside a function that writes shared state is not refused as it is alone",
+                                          {"benign": pa[:80], "hostile": ph[:80], "preempted_at_line_event": k, "of": total, "who": who},
+                                          observed=out[:200], required=(alone or b"")[:200],
+                                          replay={"state_interleaving": True, "k": k, "a": pa.decode("latin-1"), "h": ph.decode("latin-1"), "tls": htls})
+    finally:
+        sys.settrace(None)
+        tree.close()
+        pyg.reset_globals()
+
+
 def run(ctx):
     res = Result()
     res.rule = ("correspondence: 155 exhaustive strings over {. / \\ NUL a} + seeded strings; unit functions "
@@ -465,14 +559,58 @@ def run(ctx):
     ]
     correspond(ctx, res)
     kernel_correspond(ctx, res)
+    forced_state_interleavings(ctx, res)
     oracle(ctx, res)
     res.degraded = list(pyg.degraded)
     return res
 
 
+def _replay_state_interleaving(rp):
+    """benign request A pre-empted at its k-th traced line by the climbing request H; then H twice more"""
+    import sys
+    from props import c14
+    lazy = c14.lazy_functions()
+    tree = pyg.Tree()
+    try:
+        trees.standard(tree, hostile_content=False)
+        tree.outside("secret.txt", b"TOP-SECRET-A\n")
+        cfg = pyg.make_config(tree.root, **{"handlers.dir.DirHandler|cachetime": "0"})
+        pa, ph, k = rp["a"].encode("latin-1"), rp["h"].encode("latin-1"), rp["k"]
+        state = {"n": 0}
+
+        def local(frame, event, arg):
+            if event == "line":
+                state["n"] += 1
+                if state["n"] == k:
+                    sys.settrace(None)
+                    try:
+                        print("H while A was at", frame.f_code.co_name, frame.f_lineno, "->", pyg.request(ph, cfg, tls=rp.get("tls", False), reset=False).out[:200])
+                    finally:
+                        sys.settrace(tracer)
+            return local
+
+        def tracer(frame, event, arg):
+            if event == "call" and (os.path.realpath(frame.f_code.co_filename), frame.f_code.co_name) in lazy:
+                return local
+            return None
+        pyg.reset_globals()
+        sys.settrace(tracer)
+        try:
+            print("A ->", pyg.request(pa, cfg, reset=False).out[:120])
+        finally:
+            sys.settrace(None)
+        for _ in range(2):
+            print("H afterwards ->", pyg.request(ph, cfg, tls=rp.get("tls", False), reset=False).out[:200])
+    finally:
+        tree.close()
+    return 0
+
+
 def replay(data):
     v = data["violation"]
     rp = v["replay"]
+    if rp.get("state_interleaving"):
+        return _replay_state_interleaving(rp)
     tree = pyg.Tree()
     try:
         trees.standard(tree)
